@@ -1,7 +1,8 @@
 /-
 pkg/chart/v2/util/dependencies.go processImportValues: the type switch over the entries of a
-dependency's `import-values` list, with its unchecked type assertions
-(`iv["child"].(string)`, `iv["parent"].(string)`) as panic sites.
+dependency's `import-values` list with its type assertions on `iv["child"]`, `iv["parent"]`
+(unchecked on the pinned tree: a panic; checked since the repair `fix: return an error for
+import-values entries whose child or parent is not a string`).
 Only the crash behaviour is modelled here (what is imported is not).
 -/
 import Helm.Model.Values
@@ -10,6 +11,7 @@ open Helm.Values
 
 inductive Outcome where
   | ok
+  | err        -- "child and parent must be strings"
   | panic
   deriving Repr, DecidableEq, Inhabited
 
@@ -19,13 +21,14 @@ def isStr : Option Val → Bool
 
 /-- one entry of `import-values` as decoded from YAML -/
 def entryOutcome : Val → Outcome
-  | .tbl t => if isStr (t.get? "child") && isStr (t.get? "parent") then .ok else .panic
+  | .tbl t => if isStr (t.get? "child") && isStr (t.get? "parent") then .ok else .err
   | _ => .ok        -- a string is the short form; any other type is skipped by the switch
 
 def outcome : List Val → Outcome
   | [] => .ok
   | e :: r => match entryOutcome e with
     | .panic => .panic
+    | .err => .err
     | .ok => outcome r
 
 end Helm.ImportValues
